@@ -20,7 +20,7 @@ pub fn run(a: &Args, prop: &str) -> i32 {
     let payloads_per_op = if rep.thorough() { 40 } else { 12 };
     let corruptions_per_payload = if rep.thorough() { 60 } else { 25 };
     // C03 only takes the fixed case that must hold (an implementor declared by `extend type .. implements ..`)
-    let corpus = if prop == "C01" { c01_corpus() } else { c01_corpus().into_iter().skip(3).collect() };
+    let corpus = if prop == "C01" { c01_corpus() } else { c01_corpus().into_iter().filter(|(s, d)| c01_finding_class_op(s, d, None).is_none()).collect() };
     let n_corpus = corpus.len();
     let mut corpus_opts = 0;
     let mut u = build_universe_with(&mut rep, &mut rng, &prop.to_lowercase(), n_cases, &SchemaKnobs::default(), &OpKnobs::default(), |rng, s| {
